@@ -214,27 +214,34 @@ class Monitor:
                     line, " ".join(o[2:]), "handler %d.%d" % exp if exp else "a rejection")))
         elif op == "delay" and o[0] == "delay" and len(o) >= 3:
             c, up = int(t[1]), t[2].upper()
-            num = 0
-            for k in ("N", "R", "S", "G"):        # the kind `commanddelay` picks
+            # `commanddelay` names no kind: which declared kind it picks (the code: statement, value,
+            # setter, getter) is its own business, not C16's; whatever it picks must reach the
+            # nearest handler for that kind
+            outcomes = []
+            for k in ("N", "R", "S", "G"):
                 num = self.key2num.get((up, k), 0)
                 if num:
-                    break
-            exp = None
-            if num and self.allowed(self.num_ns[num]):
-                exp = self.nearest(c, num)
+                    r = self.nearest(c, num) if self.allowed(self.num_ns[num]) else None
+                    outcomes.append("%d.%d" % r if r else None)
             got = o[3] if o[2] == "ran" and len(o) > 3 else None
             if o[2] not in ("ran", "nothing", "dropped"):
                 bad.append(("commanddelay:abnormal", "`%s`: %s" % (line, out)))
-            elif got != ("%d.%d" % exp if exp else None):
-                last = "idx==last" if (got is None and up == self.last_name()) else "other"
-                bad.append(("commanddelay:%s" % last, "`%s`: outcome `%s`, the property demands %s" % (
-                    line, " ".join(o[1:]), "handler %d.%d" % exp if exp else "no handler")))
+            elif outcomes and got != outcomes[0]:
+                if got is None and up == self.last_name():
+                    bad.append(("commanddelay:idx==last", "`%s`: outcome `%s`, the command is declared and the nearest handler is %s" % (
+                        line, " ".join(o[1:]), outcomes[0])))
+                elif got not in outcomes:
+                    bad.append(("commanddelay:wrong-handler", "`%s`: outcome `%s`, no kind of this command resolves to that (candidates %s)" % (
+                        line, " ".join(o[1:]), outcomes)))
+            elif not outcomes and got is not None:
+                bad.append(("commanddelay:wrong-handler", "`%s`: outcome `%s` for an undeclared command" % (line, " ".join(o[1:]))))
         return bad
 
     def scan(self, lines, outs):
+        """[(line index, signature, message)]"""
         found = []
-        for l, o in zip(lines, outs):
-            found += self.feed(l, o)
+        for i, (l, o) in enumerate(zip(lines, outs)):
+            found += [(i, sig, msg) for sig, msg in self.feed(l, o)]
         return found
 
 
@@ -255,7 +262,7 @@ class Prop:
                     outs.append("ev %d %d 1" % (k, k))
                 else:
                     outs.append("cls 0" if l.startswith("bclass") else "ok")
-        self.pre_found = m.scan(self.preamble, outs)
+        self.pre_found = [(-1, sig, msg) for _, sig, msg in m.scan(self.preamble, outs)]
         return m
 
     def monitor(self, lines, outs):
@@ -265,14 +272,19 @@ class Prop:
     def classify(self, lines, impl, crash, model):
         if crash:
             return "violation", "implementation crashed / sanitizer report: " + crash, crash
-        found = self.monitor(lines, impl)
         i = common.first_diff(impl, model)
         where = "line %d `%s`: implementation `%s`, proved model `%s`" % (
             i, lines[i] if i is not None and i < len(lines) else "?",
             impl[i] if i is not None and i < len(impl) else "<missing>",
             model[i] if i is not None and i < len(model) else "<missing>") if i is not None else "no line differs"
+        # only what the monitor says about lines on which the two sides DIFFER explains this
+        # difference (a hit on a line where they agree is a defect the model shares: it is reported
+        # on its own by monitor_pass, and must not lend its signature to an unrelated difference)
+        found = [(j, sig, msg) for j, sig, msg in self.monitor(lines, impl)
+                 if j < 0 or j >= len(model) or j >= len(impl) or impl[j] != model[j]]
         if found:
-            sig, msg = found[0]
+            found.sort(key=lambda h: (h[0] != i, h[0]))
+            _, sig, msg = found[0]
             return "violation", msg + " | " + where, sig
         # the property holds on everything this trace shows: an implementation detail moved
         a = (impl[i] if i is not None and i < len(impl) else "").split(" ")[0]
@@ -421,7 +433,7 @@ def gen_case(rng, reg, size=None):
             ncls_total += 1
             host_cls.append(ncls_total)
             depth[ncls_total] = depth.get(parent, 0) + 1
-        if rng.random() < 0.05:
+        if host_cls and rng.random() < 0.05:
             lines.append("row %d" % rng.choice(host_cls))      # before init: illegal
         lines.append("init")
         names = []
@@ -449,7 +461,7 @@ def gen_case(rng, reg, size=None):
                 lines.append("call %d %s N nosuch_cmd" % (c, rng.choice(["script", "ret", "proc"])))
                 for b in base:
                     lines.append("delay %d %s" % (c, rng.choice(variants(b, rng))))
-        if rng.random() < 0.05:
+        if host_cls and rng.random() < 0.05:
             lines.append(rng.choice(["call %d script N zq" % listener, "call 0 script N zq", "call %d jump N zq" % host_cls[0],
                                      "call %d script X zq" % host_cls[0], "filter 3", "filter 1 0", "filter 1 4", "drow 0", "row 99999",
                                      "name bad-name", "frobnicate", ""]))
@@ -517,7 +529,7 @@ def monitor_pass(d, prop, named_cases, hits):
     if crash is not None or common.first_diff(impl, model) is not None:
         return      # the differential engine deals with it
     m = prop.fresh_monitor()
-    for sig, msg in prop.pre_found:
+    for _, sig, msg in prop.pre_found:
         hits.setdefault(sig, (msg, "preamble", ["reset"], "", ""))
     pos = 0
     for name, c in named_cases:
@@ -551,7 +563,7 @@ def minimise_witness(d, prop, lines, sig):
         impl, crash, info, model = d.both(cand)
         if crash is not None:
             return False
-        return any(s == sig for s, _ in prop.monitor(cand, impl))
+        return any(s == sig for _, s, _ in prop.monitor(cand, impl))
     if len(body) > 1:
         body = common.ddmin(body, still, max_tests=60)
     return head + body + last
@@ -623,7 +635,7 @@ def check(ctx):
     bad += tbad
     # (D) random host hierarchies
     rng = ctx.rng("random")
-    ncases = 60 if quick else 700
+    ncases = 160 if quick else 3000
     batch = []
     for i in range(ncases):
         batch.append(("random:%d" % i, gen_case(rng, reg)))
@@ -638,7 +650,7 @@ def check(ctx):
         bad += run([("exh:%d" % (i + j), c) for j, c in enumerate(exh[i:i + 150])])
     if not quick:
         big = ctx.rng("big")
-        bad += run([("big:%d" % i, gen_case(big, reg, size=40)) for i in range(6)])
+        bad += run([("big:%d" % i, gen_case(big, reg, size=40)) for i in range(8)])
     ctx.oblige("correspondence harness/dispatch.cpp == Dispatch model on %d cases" % d.cases, bad == 0,
                "%d differing cases" % bad, reported=True)
     # property violations that model and implementation share (reference monitor)
@@ -650,8 +662,8 @@ def check(ctx):
             "impl_out": impl, "model_out": model, "crash": crash, "verdict": "violation", "why": msg, "signature": sig,
             "how_to_replay": "python3 tools/check.py %s --replay <this file>" % ctx.prop_id})
         ctx.violations.append({"signature": sig, "replay": replay, "why": msg, "found_input": True})
-    ctx.oblige("reference monitor: the implementation's trace satisfies the property on every case", not hits,
-               "; ".join("%s: %s" % (s, v[0][:160]) for s, v in sorted(hits.items())), reported=True)
+    # (not an obligation: each hit is a violation with its own replay, matched against known_findings.json by finish)
+    ctx.stats["monitor_hits"] = {s: v[0][:200] for s, v in sorted(hits.items())}
     ctx.samples = [gen_case(ctx.rng("sample"), reg, size=2)]
     cov = {
         "evaluations": d.cases, "distinct_nontrivial": len(d.distinct),
@@ -681,7 +693,7 @@ def replay(ctx, obj):
         print("CRASH", crash)
         print(info)
     found = prop.monitor(obj["lines"], impl) if not crash else []
-    for sig, msg in found:
+    for _, sig, msg in found:
         print("PROPERTY", sig, msg)
     bad = crash is not None or common.first_diff(impl, model) is not None or bool(found)
     print("replay:", "still fails" if bad else "no difference, property holds on this input")
